@@ -21,7 +21,7 @@ def P(title, level, rule, explanation, level_text, level_note, technique, jobs, 
 PROPS = {
     "C02": P("Retry budget and fallback exact", "exploration",
         "cases = (node kind/style, budget N, exec failure sequence, fallback script): EXHAUSTIVE for N in 1..8 x all 2^(N+1) failure sequences x fallback{ok,err,passthrough} x every kind; "
-        "plus rapid-generated flows and gated batch scenarios (each item judged by the same model); non-trivial = N>=2 and at least one failed attempt; distinct = FNV-64 of scenario JSON",
+        "plus rapid-generated flows (also under a context deadline that never expires), flows that themselves carry a retry budget, and gated batch scenarios in every mode (each executed item judged by the same model); error values include wrapped context errors, non-comparable and net.Error-like types; non-trivial = N>=2 and at least one failed attempt; distinct = FNV-64 of scenario JSON",
         "oracle: attempts == min(k,N) from the script alone; fallback exactly once iff all N failed, with the prep value and the error INSTANCE of attempt N-1; post/slot receives the fallback's outcome else the successful attempt's",
         "exhaustive over the whole quantified single-node space (N<=8), generated search for flows and batch items",
         "trusted: the 20-line retry/fallback model in c02_test.go; error identity by interface equality of distinct error tokens",
@@ -53,7 +53,7 @@ PROPS = {
         "cancellation-point enumeration over rapid-generated scenarios in synctest bubbles; oracle = prefix-of-reference + ctx-error predicate",
         [job("main", "^TestC05$", q=4, th=16)]),
     "C06": P("Batch results positional; post once", "exploration",
-        "cases = gated batch scenarios (n items, c workers, prep payload form, per-item scripts, release schedule). EXHAUSTIVE over all completion orders (replay-based DFS over 'which parked exec next') for the (n,c) pairs listed in exhaustive_subspaces; rapid: n in 0..64, c in 0..16, 9 prep payload forms, gated random release orders and un-gated random virtual durations; "
+        "cases = gated batch scenarios (n items, c workers, prep payload form, per-item scripts, release schedule). EXHAUSTIVE over all completion orders (replay-based DFS over 'which parked exec next') for the (n,c) pairs listed in exhaustive_subspaces; rapid: n in 0..96 (fixed cases up to 129), c in 0..16, 9 prep payload forms, continue and stop mode, gated random release orders, un-gated random virtual durations, and runs struck by a cancellation; "
         "non-trivial = c>=2 and completion order differs from index order",
         "oracle: post exactly once, entered with no exec in flight and all n started; items element-wise identical to prep's; len(results)==n; slot i == the outcome (value identity / error instance) of item i's own last callback",
         "schedule enumeration: every completion order for n<=8,c<=4 (quick) and n=10,c=5 (thorough)",
@@ -61,7 +61,7 @@ PROPS = {
         "schedule-enumerating property test in synctest bubbles + rapid generation; oracle = positional slot/item identity predicate",
         [job("main", "^TestC06$", q=4, th=16)]),
     "C07": P("Batch: every item once, per-item retry/fallback", "exploration",
-        "cases = batch scenarios with independent per-item scripts: EXHAUSTIVE script assignments for n<=2 (quick) / n<=3 (thorough), budget<=2, c in 0..3, fallback on/off, two release orders; rapid: n<=32, budget<=4, c<=8, random release orders and un-gated timed runs; "
+        "cases = batch scenarios with independent per-item scripts: EXHAUSTIVE script assignments for n<=2 (quick) / n<=3 (thorough), budget<=2, c in 0..3, fallback on/off, two release orders; rapid: n<=32, budget<=4, c<=8, random release orders, retry waits, live context deadlines, a second run of the same node object after reconfiguration, and un-gated timed runs; "
         "non-trivial = >=2 distinct item scripts, >=1 failing item, c>=2",
         "oracle: per item the C02 model on its own script (attempt count, numbering, fallback count/arguments, slot) and a differential run of the same script as a single NewNode; total exec calls == sum of model attempts",
         "generated search with exhaustive small scope",
@@ -93,7 +93,7 @@ PROPS = {
         "differential property-based testing (nested vs flattened real flows) with rapid shrinking",
         [job("main", "^TestC10$", q=4, th=16)]),
     "C11": P("Cancelling a batch", "fault_enumeration",
-        "cancellation injected before the run and from inside the exec of EVERY (item, attempt) for n<=7 (quick)/16 (thorough), c in 0..4, both modes, budgets 1..3, wait in {0,1h}; other in-flight items parked; rapid on top (random failing items, fallbacks, prep forms); "
+        "cancellation injected before the run and from inside the exec of EVERY (item, attempt) for n<=7 (quick)/16 (thorough), c in 0..4, both modes, budgets 1..3, wait in {0,1h}; other in-flight items parked; in-exec cancellation as cancel(), as cancel with a custom cause and as a context deadline expiring during the attempt; rapid on top (random failing items, fallbacks, prep forms); "
         "non-trivial = cancellation strictly inside the run with >=1 item not yet started",
         "oracle: the run returns (a hang = bubble deadlock panic); no new item and no new retry attempt starts after the cancellation's quiescent point; then errors.Is(err, ctx.Err()) or post called exactly once with IsError() in every never-executed slot",
         "fault enumeration over cancellation points in a deterministic bubble",
@@ -102,7 +102,7 @@ PROPS = {
         [job("main", "^TestC11$", q=4, th=16)]),
 
     "C12": P("Worker pool", "exploration",
-        "cases = WorkerPool scenarios in a bubble: every size -1..16 x {0,1,5w+3 tasks, three submitters} x gated/timed x two Wait rounds; rapid: sizes -1..16, 0..500 tasks, 1..4 submitters, 1..3 Submit/Wait rounds, gated release orders or random virtual durations; the same under the race detector with tasks doing plain writes read after Wait; "
+        "cases = WorkerPool scenarios in a bubble: every size -1..16 x {0,1,5w+3 tasks, three submitters} x gated/timed x two Wait rounds; rapid: sizes -1..16, 0..500 tasks, 1..4 submitters, 1..3 Submit/Wait rounds, gated release orders or random virtual durations, a late submitter adding tasks while Wait is in progress; the same under the race detector with tasks doing plain writes read after Wait; "
         "non-trivial = tasks>3*workers (queue overflows) or >=2 submitters or >=2 rounds",
         "oracle: every task counter == 1; at every quiescent point a goroutine blocked in Wait() has not returned while a submitted task is unfinished; in-flight == min(workers, unfinished); plain writes visible after Wait (race detector: happens-before); after Close the bubble ends clean (a surviving worker = 'blocked goroutines remain' panic); lost task = deadlock panic",
         "schedule exploration in deterministic bubbles + race-detector run",
@@ -111,7 +111,7 @@ PROPS = {
         [job("main", "^TestC12$", q=4, th=16), job("race", "^TestC12$", q=2, th=8, race=True)]),
     "C13": P("Shared store linearizable and race-free", "exploration",
         "cases = rapid-generated concurrent programs (2..6 goroutines x 1..8 ops over keys k0..k3: Set, Get, Has, Delete, Len, Keys, GetAll, Merge of 1..4 keys, Merge(nil), Clear, typed getters), each executed 20 times from a barrier on 16 real cores, every recorded history (call/return stamps from one atomic counter) checked by porcupine against a plain map; "
-        "plus atomicity stress (generation-stamped Merges of 8..64 keys and Clears vs spinning GetAll/Keys/Len readers); both also under -race; non-trivial = history with a multi-key operation overlapping a write of another goroutine",
+        "plus atomicity stress (generation-stamped Merges of 8..1000 keys and Clears vs spinning GetAll/Keys/Len readers) and disjoint-writer stress (concurrent writes to different keys must all survive); all also under -race; values include typed slices read through getters; non-trivial = history with a multi-key operation overlapping a write of another goroutine",
         "oracle: porcupine linearizability check of each history against the sequential map specification; stress invariant 'every snapshot is all-of-one-generation or empty'; any race-detector report with flyt frames",
         "sampled schedules (the harness cannot own the schedule inside the store's critical sections without editing flyt): statistical evidence, stated as such",
         "trusted: porcupine v1.3.0; the atomic stamp counter gives a sound real-time order; Unknown (timeout) is reported as inconclusive, never as violation",
@@ -134,7 +134,7 @@ PROPS = {
         "property-based testing over reflect-built values (rapid) + native go fuzzing; oracle = documented-semantics reference model + cross-variant consistency",
         [job("main", "^TestC15$", q=4, th=16), job("fuzz", "^$", fuzz="^FuzzC15$", fuzztime=90, tiers=("thorough",), tth=600)]),
     "C16": P("Bind", "exploration",
-        "cases = (source recipe, destination form, prepopulated?, via store/result/missing key): 315 hostile sources x 24 destination forms exhaustively; rapid random recipes biased to JSON-marshalable composites; thorough adds native fuzzing; "
+        "cases = (source recipe, destination form, prepopulated?, via store/result/missing key): 315 hostile sources x 24 destination forms exhaustively; rapid random recipes biased to JSON-marshalable composites; sequences of binds in one process; store sessions in which stored reference values are updated in place between binds of the same key; thorough adds native fuzzing; "
         "non-trivial = destination type differs from the source type, or an error case",
         "oracle: independent reference on twin-built values - own type => *dest = v (identity, incl. unexported fields and same reference); otherwise json.Marshal + json.Unmarshal into a twin destination; compare destination contents (deep, NaN-aware) and error nil-ness; never panics; source deep-equal to its twin afterwards; store.Bind == Result.Bind on non-nil values",
         "differential generated search against encoding/json",
@@ -150,7 +150,7 @@ PROPS = {
         T_PBT + "oracle = payload identity predicate + metamorphic style-twin relation",
         [job("main", "^TestC17$", q=4, th=16)]),
     "C18": P("Success never yields the empty action", "exploration",
-        "cases = exhaustive configuration matrix: every leaf kind/style, flow-as-node, batch nodes (9 prep forms x n in 0..3 x c in 0..2 x with/without post x builder/*BatchNode) x post in {empty, default, custom} x {run directly, routed step of a flow whose default edge leads to a sentinel}: 3048 configurations; every case is non-trivial by construction (distinct configuration)",
+        "cases = exhaustive configuration matrix: every leaf kind/style, flow-as-node, batch nodes (9 prep forms x n in 0..3 x c in 0..2 x with/without post x builder/*BatchNode) x post in {empty, default, custom} x {run directly, routed step of a flow whose default edge leads to a sentinel}: 5004 configurations (incl. exec path {succeeds, succeeds on retry, fallback recovers} and batches run under an already-cancelled context); every case is non-trivial by construction (distinct configuration)",
         "oracle: err==nil => action non-empty and == default when post returned empty; in a flow the default-connected sentinel runs iff post returned empty or default; an edge on the empty action is never followed",
         "exhaustive enumeration of the quantified configuration space",
         "trusted: harness node constructors",
